@@ -440,6 +440,12 @@ def serverRandomTail (smax negotiated : Version) (rnd8 : Bytes) : Bytes :=
   let r := if negotiated == (3, 3) && vlt (3, 3) smax then sentinel12 else rnd8
   if vlt negotiated (3, 3) && vle (3, 3) smax then sentinel11 else r
 
+/-- The abbreviated (session-ID / ticket resumption) ServerHello of `_serverGetClientHello`:
+    `serverHello.create(version, getRandomBytes(32), session.sessionID, …)` — no sentinel is
+    written there, whatever the versions; a resumed handshake is protected against version
+    rollback by the Finished MAC under the cached master secret only. -/
+def serverRandomTailResumed (_smax _negotiated : Version) (rnd8 : Bytes) : Bytes := rnd8
+
 inductive Alert
   | illegalParameter | inappropriateFallback | protocolVersion
 deriving DecidableEq, Repr
@@ -484,6 +490,23 @@ def serverSelectVersion (sversions : List Version) (smin smax chVersion : Versio
 /-- tlsconnection.py 3757-3762 -/
 def serverChecksScsv (smax version : Version) (suites : List Nat) : Verdict :=
   if vlt version smax && suites.contains fallbackScsv then .abort .inappropriateFallback else .proceed
+
+inductive ServerPath | abbreviated | full
+deriving DecidableEq, Repr
+
+/-- Order of the server's decisions on a ClientHello (`_serverGetClientHello`): version choice,
+    then the TLS_FALLBACK_SCSV test, and only then the resumption block (session-ID cache or
+    RFC 5077 ticket lookup plus its consistency checks, whose outcome is `sessionFound`).  The
+    SCSV test therefore guards abbreviated handshakes exactly as it guards full ones. -/
+def serverAfterHello (sversions : List Version) (smin smax chVersion : Version)
+    (ext : Option (List Version)) (suites : List Nat) (sessionFound : Bool) :
+    Except Alert (Version × ServerPath) :=
+  match serverSelectVersion sversions smin smax chVersion ext with
+  | .error a => .error a
+  | .ok v =>
+    match serverChecksScsv smax v suites with
+    | .abort a => .error a
+    | .proceed => .ok (v, if sessionFound then .abbreviated else .full)
 
 /-- tlsconnection.py 733-735: suites on the wire -/
 def clientWireSuites (suites : List Nat) (sendFallbackSCSV : Bool) : List Nat :=
